@@ -3,6 +3,7 @@ import RxProofs.Lemmas.TimedMap
 import RxProofs.Lemmas.TimedSim
 import RxProofs.Lemmas.TimedSimSample
 import RxProofs.Lemmas.TimedFeedback
+import RxProofs.Lemmas.TimedFeedbackDeb
 /-!
 # C16 — rate-limiting operators follow their timing rules
 
@@ -164,6 +165,26 @@ theorem sample_feedback_combined_partial {α} (echo : Nat → Option α) (isEcho
     (k : Nat) (srcLive : Bool) (s : SampSt α) :
     sampSimFb echo isEcho k q srcLive s = sampSim (sampCombinedQ echo isEcho k q srcLive s) srcLive s :=
   samp_feedback_eq_combined echo isEcho q k srcLive s
+
+/-- **debounce_feedback_rule** (debounce after 576f241: the pending flag is cleared before the downstream call).
+The scheduler simulation with a consumer that pushes echoes into the source from inside `on_next` (`simRunFb (debOp d)`:
+queue ordered by (due, insertion), the echo is the source's next item) equals the rule `debSpecFb` over the combined
+arrival sequence: an element is emitted `d` after its arrival iff the next source notification is later; the echo pushed
+at that emission arrives at that instant and is itself emitted `d` later under the same condition — after its own quiet
+period —; a completion flushes what is pending, an error drops it.  For every non-decreasing timeline, every echo
+assignment (echoes are recognisable, `hE`, and do not echo), every delivery counter start; `fuel` only has to be large
+enough (`4·messages`). -/
+theorem debounce_feedback_rule {α} (d : Nat) (other : Nat → TL α) (echo : Nat → Option α) (isEcho : α → Bool)
+    (hE : ∀ k e, echo k = some e → isEcho e = true) (sub lo fuel : Nat) (msgs : TL α) (h : Mono lo msgs) (hs : sub ≤ lo)
+    (hf : 4 * msgs.length ≤ fuel) :
+    simRunFb (debOp d) other echo isEcho fuel 0 sub (srcItems msgs) {} = debSpecFb d echo isEcho 0 none msgs :=
+  (deb_fb_claims d other echo isEcho hE msgs).1 lo h fuel 0 sub {} hf ⟨rfl, rfl⟩ hs
+
+/-- a@210 is emitted at 230; its echo arrives then and is emitted at 250; b@300 → 320, its echo (delivery 2) → 340 -/
+example : debSpecFb 20 (fun k => if k = 0 ∨ k = 2 then some ("echo", k) else none) (fun v => v.1 == "echo") 0 none
+      [(210, Notif.next ("a", 0)), (300, .next ("b", 0)), (400, .next ("c", 0)), (500, .completed)]
+    = [(230, .next ("a", 0)), (250, .next ("echo", 0)), (320, .next ("b", 0)), (340, .next ("echo", 2)),
+       (420, .next ("c", 0)), (500, .completed)] := by decide
 
 example : tfRunFb 100 (fun k => if k = 0 then some "a-echo" else none) 0 none
       [(300, Notif.next "a"), (350, .next "b"), (400, .next "c"), (450, .next "d")]
